@@ -47,21 +47,29 @@ type peerIdentity struct {
 }
 
 func deserializePeer(s string) (id peerIdentity, complete bool, err error) {
-	parts := strings.Split(s, ":")
-	if len(parts) != 4 {
+	// The ip may itself contain colons (IPv6), so the fixed fields are split
+	// off both ends: the peer id up to the first colon, port and complete bit
+	// after the last two.
+	first := strings.Index(s, ":")
+	last := strings.LastIndex(s, ":")
+	if first < 0 || last <= first {
 		return id, false, fmt.Errorf("invalid peer encoding: expected 'pid:ip:port:complete'")
 	}
-	peerID, err := core.NewPeerID(parts[0])
+	mid := strings.LastIndex(s[:last], ":")
+	if mid <= first {
+		return id, false, fmt.Errorf("invalid peer encoding: expected 'pid:ip:port:complete'")
+	}
+	peerID, err := core.NewPeerID(s[:first])
 	if err != nil {
 		return id, false, fmt.Errorf("parse peer id: %s", err)
 	}
-	ip := parts[1]
-	port, err := strconv.Atoi(parts[2])
+	ip := s[first+1 : mid]
+	port, err := strconv.Atoi(s[mid+1 : last])
 	if err != nil {
 		return id, false, fmt.Errorf("parse port: %s", err)
 	}
 	id = peerIdentity{peerID, ip, port}
-	complete = parts[3] == "1"
+	complete = s[last+1:] == "1"
 	return id, complete, nil
 }
 
